@@ -1302,7 +1302,7 @@ REACH_OPS = [
     (), (("set_value", 1, 1, 201),), (("set_value", BEY, BEY, 202),), (("set_cell", 0, 0, 203, 2),),
     (("insert_cell", 1, 1, 205, 2),), (("insert_row", 1, "R3", 240, 2),), (("append_row", "R3", 250, 3),),
     (("insert_column", 1, "cy", 2),), (("delete_row", 0),), (("rappend_cell", 0, 272, 2),),
-    (("set_values", "gap", 1, 0),),
+    (("set_values", "gap", 1, 0),), (("delete_column", 0),),
 ]
 REACH_INITS = ["empty", "new-2x2", "x-rowrun", "x-ragged", "x-cellruns", "x-rowruns3", "ods-Example3"]
 
@@ -1466,7 +1466,47 @@ def _content_of(it):
     return it.obj.style
 
 
+def _check_families(res, init, history):
+    """Single-item getters (served from the cached wrappers) and expanding getters (fresh wrappers) return the same
+    content at every position, after cache-populating reads before every step: needs no reference grid, so it is
+    checked on every state, coherent or not."""
+    # histories in the input classes of the recorded findings (a repeated item set over following items, a live
+    # row.repeated) are left to those findings
+    t0, g0 = build_init(init)
+    for sym in history:
+        op = resolve(sym, g0)
+        if "overlap" in input_class(t0, op) or op[0] == "live_row_repeated":
+            res.in_domain = False
+            return
+        apply_real(t0, op)
+        apply_model(g0, op)
+    t, _g, _done, _fail = _play(init, history, True, check=False)
+    where = f"{init} {list(history)} (reads before every step)"
+    res.checked += 1
+    matrix = t.get_values()
+    H = len(matrix)
+    W = max((len(r) for r in matrix), default=0)
+    by_row = [t.get_row(y).get_values() for y in range(H)]
+    by_row_values = [t.get_row_values(y) for y in range(H)]
+    by_rows = [r.get_values() for r in t.get_rows()]
+    pad = lambda rows: [list(r) + [None] * (W - len(r)) for r in rows]    # noqa: E731
+    for name, got in (("get_row", by_row), ("get_row_values", by_row_values), ("get_rows", by_rows)):
+        if pad(got) != pad(matrix):
+            _report(res, "ensures:families-agree", f"{where}: {name} gives {got!r}, get_values gives {matrix!r}")
+    for y in range(H):
+        for x in range(W):
+            v = t.get_value((x, y))
+            c = t.get_cell((x, y)).get_value()
+            if v != pad(matrix)[y][x] or c != v:
+                _report(res, "ensures:families-agree", f"{where}: get_value({(x, y)}) = {v!r}, get_cell = {c!r}, get_values "
+                        f"has {pad(matrix)[y][x]!r}")
+                return
+
+
 def _check_getter(res, getter, init, history):
+    if getter == "families-agree":
+        _check_families(res, init, history)
+        return
     rt = reach(init, history)
     if rt is None:
         res.in_domain = False
@@ -1632,6 +1672,7 @@ def _gen_getters(con, sigcase, count, seed):
     for init, h in keys:
         for gt in GETTERS:
             yield {"init": init, "history": h, "getter": gt}
+        yield {"init": init, "history": h, "getter": "families-agree"}
         for gt in OUTSIDE:
             yield {"init": init, "history": h, "getter": "outside:" + gt}
 
@@ -1653,14 +1694,16 @@ contract(
     ensures=[Clause(f"{c}-{gt}", {"C08"}, lambda a, r, p: True)
              for gt in GETTERS for c in ("coords", "content", "norepeat", "detached")]
             + [Clause(f"outside-{gt}", {"C08"}, lambda a, r, p: True) for gt in OUTSIDE]
-            + [Clause("no-crash", {"C08"}, lambda a, r, p: True)],
+            + [Clause("no-crash", {"C08"}, lambda a, r, p: True), Clause("families-agree", {"C08"}, lambda a, r, p: True)],
     gen=_gen_getters, call_native=_call_getters,
     bounded=dict(
-        scope="25 getter forms {get_cell (keep_repeated True/False), get_row, get_cells (all, flat, areas), cells, "
+        scope="families-agree: single-item getters (cached wrappers) and expanding getters (fresh wrappers) return the same "
+              "content at every position after cache-populating reads before every step, on every state, coherent or not; "
+              "25 getter forms {get_cell (keep_repeated True/False), get_row, get_cells (all, flat, areas), cells, "
               "get_rows / traverse (all, every (start,end) range), rows, get_column, get_columns / traverse_columns "
               "(all, every range), columns, get_column_cells, Row.get_cell, Row.traverse / Row.get_cells (all, every "
               "range), Row.cells} at every coordinate of 7 initial tables (empty, Table(2,2), 4 raw-XML run-length "
-              "tables, simple_table.ods Example3) each also after one of 10 operations (only states that pass their own "
+              "tables, simple_table.ods Example3) each also after one of 11 operations (only states that pass their own "
               "C01/C02/C07 checks); each returned object mutated with every listed setter of its class (Cell: set_value, "
               "clear; Row: set_value, append_cell, clear; Column: style); reads one and three positions outside the "
               "populated area for get_cell, get_value, get_row, get_column, get_column_cells, Row.get_cell; thorough: "
@@ -1791,7 +1834,7 @@ contract(
     gen=_gen_address, call_native=_call_address,
     bounded=dict(
         scope="every cell / every column range / every row range / every area of one or two rows of the reachable states used by the getters stand-in (7 "
-              "initial tables incl. run-length encoded rows, cells and columns, each also after one of 10 operations), read "
+              "initial tables incl. run-length encoded rows, cells and columns, each also after one of 11 operations), read "
               "through the tuple form, the spreadsheet string form ('B3', 'B:D', '2:4'; letters computed independently), "
               "the 4-tuple form and negative (from the end) forms; all must give the content and the stamps that "
               "element-by-element reads and the reference grid give",
@@ -2104,7 +2147,7 @@ contract(
     gen=_gen_clone, call_native=_call_clone,
     bounded=dict(
         scope="clones of the table, of every row (the live row and a get_row copy), of every cell (one beyond each row "
-              "end too) and of every column of 7 initial tables each also after one of 10 operations (states passing "
+              "end too) and of every column of 7 initial tables each also after one of 11 operations (states passing "
               "their own checks): serialisation, position maps, coordinates and answers equal at birth; then each of "
               "10 table operations / 8 row edits / 4 cell edits / 2 column edits applied to the clone and (on a new "
               "pair) to the original leaves the other one's serialisation, maps and answers unchanged; the table clone "
